@@ -68,7 +68,9 @@ package btree
 //@ func (nd leafNode) search(key) (r, found)
 //@   requires wfLeaf(nd)
 //@   ensures! 0 <= r && r <= lfN(nd) && (found ==> r < lfN(nd))
+//@   ensures! prefix_key_found: lfPre(nd) > 0 && lfN(nd) >= 1 && lfNext(nd, 0) == lfPos(nd, 0) && len(key) == lfPre(nd) && (forall j :: 0 <= j && j < lfPre(nd) ==> key[j] == nd[4 + 7 * lfN(nd) + j]) ==> found
 //@   loop 0 invariant 0 <= lo && lo <= hi + 1 && hi < lfN(nd)
+//@   loop 0 invariant len(keySuffix) == 0 ==> lo == 0 && (lfN(nd) >= 1 && lfNext(nd, 0) == lfPos(nd, 0) ==> hi >= 0)
 //@   loop 0 decreases hi - lo + 1
 //@ func (nd leafNode) seek(key) (r)
 //@   requires wfLeaf(nd)
